@@ -122,6 +122,12 @@ func (t *trio) sealed(mt frame.MessageType, payload, sw, apx []byte, margins [2]
 	if err != nil {
 		panic(err)
 	}
+	if t.rng.Intn(2) == 0 {
+		// the sender may have set the hop fields before it seals (a forwarding switch does so afterwards): TTL and
+		// flow-control flags are outside the seal whenever they are set
+		f.SetTTL(uint8(1 + t.rng.Intn(255)))
+		f.SetFlowControl(uint8(t.rng.Intn(256)))
+	}
 	if err := f.Seal(t.ab); err != nil {
 		panic(err)
 	}
